@@ -718,11 +718,68 @@ func (k *c10k) elemsNonNeg(s ssa.Value, d int) bool {
 				}
 				return n > 0
 			}
+			if fa, ok := x.X.(*ssa.FieldAddr); ok {
+				return k.fieldElemsNonNeg(ssau.FieldOwner(fa), ssau.FieldName(fa), d+1)
+			}
 		}
+	case *ssa.Field:
+		return k.fieldElemsNonNeg(ssau.NamedOf(x.X.Type()), ssau.FieldName(x), d+1)
 	case *ssa.Slice:
 		return k.elemsNonNeg(x.X, d+1)
 	}
 	return false
+}
+
+// fieldElemsNonNeg: the class of the elements of the slices ever held in
+// owner.field (a struct type of the repository that no decoder fills): every
+// slice stored into the field has non-negative elements, and so has every
+// element stored through a slice read back from the field.
+func (k *c10k) fieldElemsNonNeg(owner, field string, d int) bool {
+	if owner == "" || !strings.HasPrefix(owner, load.ModulePath) || k.decoded[owner] {
+		return false
+	}
+	key := "FE:" + owner + "." + field
+	if k.leaf != nil {
+		key += "|" + k.name
+	}
+	if m := k.memo[key]; m != 0 {
+		return m != 2
+	}
+	k.memo[key] = 3 // assumed while being established (coinductive)
+	ok := true
+	sts := k.fieldStores[owner+"."+field]
+	for _, st := range sts {
+		if !k.elemsNonNeg(st.Val, d+1) {
+			ok = false
+			break
+		}
+	}
+	if ok {
+		// element stores through the field
+		for _, fn := range shippedFuncs(k.c) {
+			ssau.ForEachInstr(fn, false, func(in ssa.Instruction) {
+				st, isSt := in.(*ssa.Store)
+				if !isSt || !ok {
+					return
+				}
+				ia, isIA := st.Addr.(*ssa.IndexAddr)
+				if !isIA {
+					return
+				}
+				o, f, _, isFL := fieldLoad(ia.X)
+				if isFL && o == owner && f == field && !k.valNonNeg(st.Parent(), st.Val, st.Block()) {
+					ok = false
+				}
+			})
+		}
+	}
+	if ok && len(sts) > 0 {
+		k.memo[key] = 1
+	} else {
+		k.memo[key] = 2
+		ok = false
+	}
+	return ok
 }
 
 // appendedNonNeg: the variadic operand of append: a fresh array whose
